@@ -57,3 +57,35 @@ Example C04_pytree_kth_leaf :
   let s := mkps [(mkmemo [("x", 5%Z)] [] [], [])] None false in
   leafmatch [] (LPyTree (LArr (AC None "?a b")) (Some "T")) (Node KTuple [arr [2; 9]%Z; arr [3; 9]%Z; arr [4; 8]%Z]) s = (Rej, s).
 Proof. vm_compute. reflexivity. Qed.
+
+(* ---------- the tie of the rollback to the source's exception-safety structure ----------
+   translator/tr_brackets.py reads from jaxtyping/_array_types.py and _pytree_type.py whether the call of _check_shape /
+   _check is wrapped in `except BaseException: set_shape_memo(<four copies taken before>); raise` and whether the mismatch
+   branch restores the same copies (gen/Brackets.v).  model/SourceShape.v is the check with that structure as a parameter;
+   instantiated with what the source says NOW it restores, and with the structure absent it provably does not. *)
+From JT Require Import gen.Brackets model.SourceShape proofs.SourceShapeFacts.
+
+Theorem C04_array_check_as_in_source_is_the_model : forall flat lbl st a v s,
+  instancecheck_src array_check_rolls_back flat lbl st a v s = instancecheck flat lbl st a v s.
+Proof. exact instancecheck_src_true. Qed.
+Print Assumptions C04_array_check_as_in_source_is_the_model.
+
+Theorem C04_array_check_as_in_source_restores : forall flat lbl st a v s vd s',
+  instancecheck_src array_check_rolls_back flat lbl st a v s = (vd, s') -> vd <> Acc -> s' = s.
+Proof. exact (fun flat lbl st a v s vd s' => instancecheck_src_restores array_check_rolls_back flat lbl st a v s vd s' eq_refl). Qed.
+Print Assumptions C04_array_check_as_in_source_restores.
+
+Theorem C04_without_rollback_refuted : exists flat lbl st a v s vd s',
+  instancecheck_src false flat lbl st a v s = (vd, s') /\ vd <> Acc /\ s' <> s.
+Proof. exact instancecheck_src_false_refuted. Qed.
+Print Assumptions C04_without_rollback_refuted.
+
+Theorem C04_pytree_check_as_in_source_restores : forall st l sopt x s vd s',
+  pytree_check_src st pytree_check_rolls_back l sopt x s = (vd, s') -> vd <> Acc -> ps_stack s' = ps_stack s.
+Proof. exact (fun st l sopt x s vd s' => pytree_check_src_restores pytree_check_rolls_back st l sopt x s vd s' eq_refl). Qed.
+Print Assumptions C04_pytree_check_as_in_source_restores.
+
+Theorem C04_pytree_without_rollback_refuted : exists st l sopt x s vd s',
+  pytree_check_src st false l sopt x s = (vd, s') /\ vd <> Acc /\ ps_stack s' <> ps_stack s.
+Proof. exact pytree_check_src_false_refuted. Qed.
+Print Assumptions C04_pytree_without_rollback_refuted.
